@@ -8,7 +8,7 @@ use regex::Regex;
 
 use fnv::FnvHasher;
 
-use chrono::{Local, Datelike, Timelike, DurationRound, Duration, TimeZone, Offset};
+use chrono::{Local, Datelike, Timelike, Duration, TimeZone, Offset};
 
 use itertools::Itertools;
 
@@ -513,7 +513,30 @@ impl<'a, T: ColumnProvider> ExpressionExecutionEngine<'a, T> {
                                             return Err(EvaluationError::FailedToTruncate);
                                         }
 
-                                        let trunc_timestamp = timestamp.duration_trunc(duration).map_err(|_| EvaluationError::FailedToTruncate)?;
+                                        // Truncate the local clock time (truncating the instant gives hh:30 where the offset is not a whole hour)
+                                        let local = timestamp.naive_local();
+                                        let nanoseconds_per_unit = duration.num_nanoseconds().unwrap_or(1).max(1) as u64;
+                                        let nanoseconds_of_day = local.num_seconds_from_midnight() as u64 * 1_000_000_000 + (local.nanosecond() % 1_000_000_000) as u64;
+                                        let truncated = nanoseconds_of_day - nanoseconds_of_day % nanoseconds_per_unit;
+
+                                        let truncated_local = local.date()
+                                            .and_hms_nano_opt(
+                                                (truncated / 3_600_000_000_000) as u32,
+                                                (truncated / 60_000_000_000 % 60) as u32,
+                                                (truncated / 1_000_000_000 % 60) as u32,
+                                                (truncated % 1_000_000_000) as u32
+                                            )
+                                            .ok_or(EvaluationError::FailedToTruncate)?;
+
+                                        // A local time that occurs twice: the occurrence with the offset of the original instant
+                                        let trunc_timestamp = match Local.from_local_datetime(&truncated_local) {
+                                            chrono::LocalResult::Single(trunc_timestamp) => trunc_timestamp,
+                                            chrono::LocalResult::Ambiguous(first, second) => {
+                                                if second.offset().fix() == timestamp.offset().fix() { second } else { first }
+                                            }
+                                            chrono::LocalResult::None => { return Err(EvaluationError::FailedToTruncate); }
+                                        };
+
                                         Ok(Value::Timestamp(trunc_timestamp))
                                     }
                                     Err(NonDurationField::Year) => {
